@@ -7,5 +7,6 @@ PROP = dict(
     level_text="The model's forwarded record carries reason, send reason, host flag, additional attributes and root span/event/link counts as a function of the configuration in force when the span is forwarded; TLC enumerates spans/span events/links, on-time and late roots and every single option toggle (AddRuleReasonToTrace, AddCountsToRoot, AddSpanCountToRoot, AdditionalAttributes, AddHostMetadataToTrace) between any two steps, and each transition is replayed on the real collector comparing all of those fields.",
     level_note="Bounded (1-2 workers, 1-3 traces, <=3 spans, horizon of a few SendTicker ticks; one model tick = one SendTicker period). Worker steps are atomic in the transition-tour binding (hook-event barrier after each step; sender drained), so only sequential schedules are forced here; really concurrent schedules are covered by the recorded-trace stage where present. Decision memory is sized so nothing is evicted (eviction is C31's subject). Sampler = real DeterministicSampler with trace IDs chosen by hash to realise the model's verdicts. Trusted: clockwork fake clock, the harness's recording Transmission, the guarded hooks (collect/verif_on.go).",
     assumptions=["stable membership, no stress toggling while buffered (as the property states)", "decision memory large enough that nothing is evicted", "bounded model: see level_note"],
-    stages=[dict(kind="walk", name="decor", module="MCCollectorDecor", pkg="collect", test="TestVerifCollector", harness=["collect/collector_test.go"], cfg={"quick": "MC_Collector_decor_q.cfg", "thorough": "MC_Collector_decor.cfg"}, budget={"quick": 45, "thorough": 600}, maxwalk=40)],
+    stages=[dict(kind="walk", name="decor", module="MCCollectorDecor", pkg="collect", test="TestVerifCollector", harness=["collect/collector_test.go"], cfg={"quick": "MC_Collector_decor_q.cfg", "thorough": "MC_Collector_decor.cfg"}, budget={"quick": 45, "thorough": 600}, maxwalk=40),
+            dict(kind="walk", name="decor-eject", module="MCCollectorDecorEject", pkg="collect", test="TestVerifCollector", harness=["collect/collector_test.go"], cfg={"quick": "MC_Collector_decoreject_q.cfg", "thorough": "MC_Collector_decoreject.cfg"}, budget={"quick": 30, "thorough": 300}, maxwalk=40)],
 )
